@@ -283,4 +283,51 @@ theorem not_oblivious_counterexample :
   refine ⟨_, _, rfl, rfl, ?_⟩
   decide
 
+/-- **multi_thread_tmp_bytes_sufficient.**  `<op>_multi_thread_tmp_bytes(threads, ..)` is
+`slot + max(threads·per, pack)` (`mtTmpBytes`).  After the evaluator has taken the `slot` bytes of
+output bits, what is left covers (i) `threads` regions of `per` bytes — the evaluator splits
+`threads` regions whatever the number of output bits, so the term is NOT capped at the output
+size — (ii) the `split_mut(threads, per)` size check when `per` is a multiple of the alignment
+(it is for the crate's layouts; `per` is reported by the harness and checked), (iii) the packing
+step.  Consequently `execBdd` with exactly that scratch succeeds for every `threads ≥ 1`
+(including `threads` above the number of outputs) and writes every output slot once. -/
+theorem multi_thread_tmp_bytes_sufficient (slot per pack threads : Nat) (ht : 1 ≤ threads) :
+    threads * per ≤ mtTmpBytes slot per pack threads - slot ∧
+    pack ≤ mtTmpBytes slot per pack threads - slot ∧
+    (per % 64 = 0 → splitNeeded threads per ≤ mtTmpBytes slot per pack threads - slot) ∧
+    (per % 64 = 0 → ∀ outLen outputSize inBits circIn, 1 ≤ outLen → outputSize ≤ outLen → circIn ≤ inBits →
+      ∃ acts, execBdd threads outLen outputSize inBits circIn (mtTmpBytes slot per pack threads - slot) per = .ok acts ∧
+        acts.length = outLen ∧
+        ∀ j (h : j < acts.length),
+          if j < outputSize then ∃ t, t < threads ∧ acts[j] = Act.item t t j else acts[j] = Act.zero) := by
+  have h1 : threads * per ≤ mtTmpBytes slot per pack threads - slot := by
+    unfold mtTmpBytes; omega
+  have h2 : pack ≤ mtTmpBytes slot per pack threads - slot := by
+    unfold mtTmpBytes; omega
+  have h3 : per % 64 = 0 → splitNeeded threads per ≤ mtTmpBytes slot per pack threads - slot := by
+    intro h64
+    have hn : nextMult64 per = per := by unfold nextMult64; omega
+    have : splitNeeded threads per = threads * per := by
+      unfold splitNeeded
+      rw [if_neg (by omega), hn]
+      obtain ⟨k, rfl⟩ : ∃ k, threads = k + 1 := ⟨threads - 1, by omega⟩
+      simp [Nat.succ_mul]
+    omega
+  refine ⟨h1, h2, h3, fun h64 outLen outputSize inBits circIn hc hr hin => ?_⟩
+  exact execBdd_table threads outLen outputSize inBits circIn _ per ht hc hr hin h1 (h3 h64)
+
+/-- non-vacuity, the crate's test parameters (32 output slots of 12288 bytes, 104960 bytes per thread,
+86528 bytes to pack): 40 threads on 32 outputs with the queried scratch -/
+example : mtTmpBytes 393216 104960 86528 40 = 4591616 ∧
+    (∃ acts, execBdd 40 32 32 64 64 (mtTmpBytes 393216 104960 86528 40 - 393216) 104960 = .ok acts) :=
+  ⟨by decide, (multi_thread_tmp_bytes_sufficient 393216 104960 86528 40 (by decide)).2.2.2 (by decide) 32 32 64 64
+    (by decide) (by decide) (by decide) |>.imp fun _ h => h.1⟩
+
+/-- … and the hypothesis "`threads` regions" is sharp: a query that caps the per-thread term at the
+number of outputs (`min threads outputs · per`) is refused by `split_mut` as soon as `threads`
+exceeds the outputs. -/
+theorem capped_query_insufficient :
+    execBdd 33 32 32 64 64 (393216 + max (min 33 32 * 104960) 86528 - 393216) 104960 = .panic "assert" := by
+  rfl
+
 end C20
